@@ -749,4 +749,11 @@ def run(chk):
     _adaptive_driver(chk, "dop853")
     _fixed_driver(chk)
     _symplectic_driver(chk)
+    # "same behaviour for Hamiltonian and generic systems": the hand-duplicated _ham drivers against the SAME loop contracts
+    # (f := lambda t, y: _hamiltonian_rhs(y, jac_H, clmo_H, n_dof)); also registered by C17
+    chk.under_contract(RK + ":_FixedStepRK._integrate_fixed_rk_until_event_ham", RK + ":_RK45._integrate_rk45_until_event_ham",
+                       RK + ":_DOP853._integrate_dop853_until_event_ham")
+    _adaptive_driver(chk, "rk45", ham=True)
+    _adaptive_driver(chk, "dop853", ham=True)
+    _fixed_driver(chk, ham=True)
     _wrappers(chk)
